@@ -58,7 +58,7 @@ def closure_keys(eng, kind, seen_kinds=None, keys=None):
     elif kind.startswith("dict:"):
         _, kk, vk = kind.split(":", 2)
         kf, vf = elem_heapkey(kk), elem_heapkey(vk)
-        keys.update({("dhas", kf), ("dval", kf, vf), ("dn", kf), ("dkeys", kf)})
+        keys.update({("dhas", kf), ("dval", kf, vf), ("dn", kf), ("dkeys", kf), ("dpos", kf)})
         closure_keys(eng, vk, seen_kinds, keys)
     elif kind.startswith("set:"):
         fam = elem_heapkey(kind[4:])
@@ -120,7 +120,7 @@ def deepcopy_model(eng, x, st, fr, k, deep=True):
         kk = key[0]
         if kk == "attr":
             st.assume(z3.ForAll([r], z3.Implies(copied(r), z3.Select(K, tgt) == map_by_kind(key[3], z3.Select(K, r)))))
-        elif kk in ("len", "dn", "sn", "joined", "dhas", "shas", "dkeys"):
+        elif kk in ("len", "dn", "sn", "joined", "dhas", "shas", "dkeys", "dpos"):
             st.assume(z3.ForAll([r], z3.Implies(copied(r), z3.Select(K, tgt) == z3.Select(K, r))))
         elif kk == "elems":
             fam = key[1]
